@@ -15,6 +15,7 @@
     and recorded on every run by stream `bin_by_phase_outside` as observed-not-claimed.
 -/
 import Proofs.Lemmas.CycleStatsInterp
+import Proofs.Lemmas.ComposeContainer
 
 namespace C14
 open Maps CycleStats
@@ -313,6 +314,83 @@ theorem binByPhaseW_spec (edges ip w x : List Rat) (hs : edges.Pairwise (· < ·
     | nil => exact absurd rfl hne
     | cons _ _ => simp
 
+/-! ## edge convention, sampling independence, default cycles (seeded changes C14-6, C14-7, C14-8) -/
+
+/-- The bins are closed at their LOWER edge, for every edge, the first included: a sample lying exactly on
+    edge b (b = 0: phase exactly 0) is digitised into bin b — the bin that starts there — never into the bin
+    below and never dropped (`np.digitize(..., right=True)` would give index b, i.e. drop phase 0). -/
+theorem sample_on_edge_in_bin_above (edges : List Rat) (hs : edges.Pairwise (· < ·)) (b : Nat)
+    (hb : b + 1 < edges.length) : digitize edges edges[b] = b + 1 := by
+  rw [digitize_eq_iff edges _ hs b hb]
+  refine ⟨Rat.le_refl, ?_⟩
+  exact (List.pairwise_iff_getElem.mp hs) b (b + 1) (by omega) hb (by omega)
+
+/-- **A sample on the first bin edge belongs to the first bin**: if sample i has phase exactly `edges[0]`,
+    its observation is among the values averaged into bin 0, so bin 0 is filled (not NaN) — also when that
+    sample is the only one in the bin. -/
+theorem first_edge_sample_in_first_bin (edges ip x : List Rat) (hs : edges.Pairwise (· < ·))
+    (h2 : 1 < edges.length) (i : Nat) (v : Rat) (hi : ip[i]? = some edges[0]) (hx : x[i]? = some v) :
+    v ∈ binValues edges ip x 0 ∧
+    ∃ m, ((binByPhase edges ip x)[0]?).map (·.1) = some (some m) := by
+  have hmem : v ∈ binValues edges ip x 0 := by
+    unfold binValues
+    refine List.mem_map.mpr ⟨(edges[0], v), List.mem_filter.mpr ⟨?_, ?_⟩, rfl⟩
+    · apply List.mem_iff_getElem?.mpr
+      exact ⟨i, by simp [List.getElem?_zip_eq_some, hi, hx]⟩
+    · simpa using sample_on_edge_in_bin_above edges hs 0 h2
+  refine ⟨hmem, ?_⟩
+  have hne : binValues edges ip x 0 ≠ [] := List.ne_nil_of_mem hmem
+  refine ⟨Sig.sum (binValues edges ip x 0) / (binValues edges ip x 0).length, ?_⟩
+  unfold binByPhase
+  simp [List.getElem?_map, List.getElem?_range (show 0 < edges.length - 1 by omega), mean?_of_ne_nil _ hne]
+
+/-- **Independent of the step sizes and of the duration**: two cycles — of the same or of different
+    recordings, with different numbers of samples (each ≥ 2) and ANY spacing of their strictly increasing
+    phases, single steps larger than π included — carrying the same quantity `a·phase + b` give the
+    IDENTICAL aligned column.  (No hypothesis bounds a phase increment: the per-cycle phase is used as it
+    is; `np.unwrap` on it would fold a monotone cycle with one step > π.) -/
+theorem alignCycle_affine_any_sampling (ip x ip' x' : List Rat) (inds inds' : List Nat) (bins : List Rat)
+    (a b : Rat)
+    (hinc : (gather ip inds).Pairwise (· < ·)) (hn : 2 ≤ inds.length)
+    (hlin : ∀ i ∈ inds, ∃ p, ip[i]? = some p ∧ x[i]? = some (a * p + b))
+    (hinc' : (gather ip' inds').Pairwise (· < ·)) (hn' : 2 ≤ inds'.length)
+    (hlin' : ∀ i ∈ inds', ∃ p, ip'[i]? = some p ∧ x'[i]? = some (a * p + b)) :
+    alignCycle ip x inds bins = alignCycle ip' x' inds' bins := by
+  rw [alignCycle_affine ip x inds bins a b hinc hn hlin, alignCycle_affine ip' x' inds' bins a b hinc' hn' hlin']
+
+/-- **`cycles=None`: the cycles aligned are those of the phase supplied.**  `phaseAlignDefault` is
+    `phase_align` on the all-cycles vector `get_cycle_vector(ip, return_good=False)` of the SAME phase values
+    (default `phase_step`): whenever it returns there is one column per cycle of that phase (the detector's
+    cycle count), and every column whose cycle meets the hypotheses of `alignCycle_affine` is `a·bins + b`.
+    The model is a function of the values: what an earlier call saw (seeded change C14-6: a memo keyed by
+    the identity of the phase array) cannot enter. -/
+theorem phaseAlign_default_cycles (g : Cycles.GoodCfg) (dstep : Rat) (ip x bins : List Rat)
+    (cols : List (List (Option Rat))) (h : phaseAlignDefault g dstep ip x bins = .ok cols) :
+    let cv := Cycles.cvIdx (Cycles.wrapAt dstep) (fun _ => true) ip
+    phaseAlignDefault g dstep ip x bins = phaseAlign ip x cv bins ∧
+    cv = Cycles.getCycleVector g dstep false ip (List.replicate ip.length true) ∧
+    cols.length = Cycles.nCycles (Cycles.cvSegs (Cycles.wrapAt dstep) (fun _ => true) ip) ∧
+    ∀ (k : Nat) (a b : Rat), k < cols.length →
+      (gather ip (mapCycleToSamples cv k)).Pairwise (· < ·) → 2 ≤ (mapCycleToSamples cv k).length →
+      (∀ i ∈ mapCycleToSamples cv k, ∃ p, ip[i]? = some p ∧ x[i]? = some (a * p + b)) →
+      cols[k]? = some (bins.map fun t => some (a * t + b)) := by
+  intro cv
+  have hcv : cv = Cycles.getCycleVector g dstep false ip (List.replicate ip.length true) := by
+    show Cycles.cvIdx _ _ _ = _
+    rw [C12.code_model_refines, ComposeContainer.getCycleVector_all]
+  have hdef : phaseAlignDefault g dstep ip x bins = phaseAlign ip x cv bins := by
+    unfold phaseAlignDefault Cycles.getCycleVectorOpt Cycles.resolveStep
+    rw [hcv]
+  rw [hdef] at h
+  obtain ⟨hlen, haff⟩ := phaseAlign_affine ip x cv bins cols h
+  have hK : nLabels cv = Cycles.nCycles (Cycles.cvSegs (Cycles.wrapAt dstep) (fun _ => true) ip) := by
+    show nLabels (Cycles.cvIdx _ _ _) = _
+    rw [C12.code_model_refines]
+    exact ComposeContainer.nLabels_paint _ _ _
+  refine ⟨hdef, hcv, by rw [hlen, hK], ?_⟩
+  intro k a b hk
+  exact haff k a b (by omega)
+
 /-! ## non-vacuity -/
 
 -- a labelling with a gap and two cycles; any reducer (here: the segment length) sees exactly each cycle
@@ -336,5 +414,25 @@ example : ¬ AlignAccepts [1, 2, 3] [0, 0, 0] [0, 2, 2] := by
   exact h 1 (by decide) (by decide)
 -- strictly increasing edges with a last bin
 example : ([0, 1, 2] : List Rat).Pairwise (· < ·) := by simp [List.pairwise_cons]; decide
+
+-- the sharp cycle of seeded change C14-8 (8 samples, one step 27/20 -> 5 larger than π, still one monotone cycle):
+-- `alignCycle_affine` applies to it (q = 3·phase − 1) whatever the grid
+example : ([3/20, 9/20, 3/4, 21/20, 27/20, 5, 11/2, 6] : List Rat).Pairwise (· < ·) := by
+  simp [List.pairwise_cons]; decide +kernel
+example : (22/7 : Rat) < 5 - 27/20 := by decide +kernel
+example (bins : List Rat) :
+    alignCycle [3/20, 9/20, 3/4, 21/20, 27/20, 5, 11/2, 6] [-11/20, 7/20, 5/4, 43/20, 61/20, 14, 31/2, 17]
+      [0, 1, 2, 3, 4, 5, 6, 7] bins = .ok (bins.map fun t => some (3 * t + -1)) := by
+  apply alignCycle_affine
+  · simp [gather, List.pairwise_cons]; decide +kernel
+  · decide
+  · intro i hi
+    simp at hi
+    rcases hi with rfl | rfl | rfl | rfl | rfl | rfl | rfl | rfl <;> simp <;> decide +kernel
+-- a phase exactly on the first edge: alone in bin 0, and bin 0 is filled
+example : binByPhase [0, 1, 2] [0, 3/2] [7, 9] = [(some 7, some 0), (some 9, some 0)] := by decide +kernel
+-- default cycles: two wraps, three cycles of the phase supplied
+example : (phaseAlignDefault { edge := 1/4, twopi := 6, endlo := 23/4 } 4 [1, 5, 0, 3, 6, 1] [1, 5, 0, 3, 6, 1] [1, 2]).toOption.map List.length
+    = some 3 := by decide +kernel
 
 end C14
